@@ -51,6 +51,9 @@ CHECKS = {
     "C09": ("exploration", "metamorphic runtime oracle: byte equality of the output file across ~25-60 deliveries of the same secret set (permutations, line ends, decorations, hex case, DSB placement/splitting, file+DSB, DSB only without -s from several working directories)",
             "Each scene's baseline delivery is compared byte for byte with every alternative delivery; permutations are exhaustive up to 5 lines.",
             TRUST, "3/C09"),
+    "C10": ("exploration", "output oracle over option configurations: presence, exported server port and client port of every connection of a scene are checked against the documented -p/-m rules, together with exactness of the exported data",
+            "Random scenes of 2-5 TLS/QUIC connections to ten different server ports under random -p lists and every -m form (absent, bare, pairs, pairs with commas).",
+            TRUST, "3/C10"),
     "C11": ("exploration", "runtime monitor comparing the real checksum routines with an independent RFC 1071 verifier on solved-for boundary packets + metamorphic end-to-end oracle (-c with corrupted packets == no -c with them removed)",
             "The real calculate_checksum_tcp/udp run on real Packet objects whose payloads are solved so that the unfolded sum hits every carry/fold boundary and "
             "the 0x0000/0xFFFF checksum values; the end-to-end relation of the property is checked byte for byte on TLS and QUIC scenes with arbitrary corrupted subsets.",
@@ -59,6 +62,12 @@ CHECKS = {
             "Keys are observed where they are installed for a real connection, so the wiring session -> key_derivator -> decryptor is part of what is checked; every "
             "(suite, version) of the frozen matrix with random secrets, and QUIC connections with Retry, 0-RTT and several key-update generations.",
             "trusted: vlib.refkdf, checked against RFC 5869/9001 vectors at setup", "3/C15"),
+    "C12": ("exploration", "metamorphic runtime oracle: byte equality of the output across 19-27 capture containers of the same packet list (pcapng LE/BE x if_tsresol x if_tsoffset x interspersed unrelated blocks; legacy pcap LE/BE, us and ns)",
+            "Timestamps are drawn from the grid every container of the group can represent, so equality is demanded only where the inputs are equal.",
+            TRUST, "3/C12"),
+    "C13": ("exploration", "differential runtime oracle: each connection exported with and without -a; subsequence test on data packets, record-by-record parse of the -a stream against the sender's record list, packet-boundary test for the hello records; QUIC per-datagram comparison",
+            "Everything -a adds must be material the reference sender knows it sent (a type 20/21/22 record verbatim or the plaintext of an encrypted handshake/alert record).",
+            TRUST, "3/C13"),
     "C14": ("exploration", "runtime contract on the real split_cipher_suite, evaluated exhaustively over all 65 536 code points",
             "Exhaustive enumeration of the whole input space of the real function under a post-condition derived from an independent frozen "
             "IANA registry copy and an independent structural name parser; the space is finite so this run is complete for the function, and the "
@@ -73,6 +82,9 @@ CHECKS = {
             "input is decided on logical steps (statement executions inside tlexport counted by sys.monitoring), exhaustively for all strings of length <= 2 and by "
             "random/mutated strings up to 1500 bytes.",
             "trusted: harness frame encoders (RFC 9000 sec. 19); the step bound is two orders of magnitude above observed maxima", "3/C17"),
+    "C18": ("exploration", "digest equality of the output across fresh interpreters (PYTHONHASHSEED, working directory, environment, repetition) and across in-process repetition (run() for A then B vs. B alone)",
+            "Real subprocesses are used because fork() does not re-seed hashing; captures are built to exercise hash-ordered containers (several CIDs per side, zero-length and 1-byte CIDs).",
+            TRUST, "3/C18"),
 }
 
 NOT_YET = "check not built yet in this round (planned, see DESIGN.md section 3)"
